@@ -30,6 +30,7 @@ def run_unit(unit, acc):
 def check_case(case, acc):
     acc.case()
     ests, gts, tf = M.build(case)
+    acc.exec(M.warm_up(case, ests, gts, tf))
     acc.exec()
     try:
         R = M.call(case, ests, gts, tf)
